@@ -345,6 +345,55 @@ def check_case(run, case, detail, history, g, scratch):
                       dict(witness, difference=diff))
 
 
+def inplace_reuse_case(run, g, detail, scratch, fixed=None):
+    """A caller that keeps ONE data object: runs a long-lived traced Pipeline on it, changes the object's value in place,
+    runs again.  The trace of the second run must be the trace a fresh Pipeline writes for a fresh object holding that
+    value (what a record says about the data is a function of the run, not of what the orchestrator saw before)."""
+    from semantiva.context_processors.context_types import ContextType
+    from semantiva.examples.test_utils import FloatDataType
+    from semantiva.pipeline.payload import Payload
+    from semantiva.trace.drivers.jsonl import JsonlTraceDriver
+    from vlib import account, tracecheck as tc
+
+    passthrough = [{"processor": "VValueProbe", "context_key": "seen"}, {"processor": "rename:tag:label"},
+                   {"processor": "VValueProbe", "context_key": "seen2"}, {"processor": "delete:junk"}]
+    head = [] if g.chance(0.6) else [{"processor": "VAddDefault"}]
+    nodes = head + g.rng.sample(passthrough, g.rng.randint(1, 3))
+    v1, v2 = g.val(), g.val() + 1.75
+    if fixed is not None:
+        nodes, v1, v2 = fixed
+    ctx = {"tag": 1.0, "junk": 0.0}
+
+    def traced(pipe, obj):
+        d = tempfile.mkdtemp(prefix="inplace-", dir=scratch)
+        pipe.trace = JsonlTraceDriver(os.path.join(d, "t.ser.jsonl"), detail=detail)
+        try:
+            pipe.process(Payload(obj, ContextType(dict(ctx))))
+            ok = True
+        except Exception:
+            ok = False
+        recs = [tc.normalise(r) for r in tc.load_file(os.path.join(d, "t.ser.jsonl"))[0]]
+        shutil.rmtree(d, ignore_errors=True)
+        return ok, recs
+
+    try:
+        pipe = account.build_pipeline(nodes)
+        obj = FloatDataType(v1)
+        traced(pipe, obj)
+        obj.data = v2
+        reused = traced(pipe, obj)
+        fresh = traced(account.build_pipeline(nodes), FloatDataType(v2))
+    except Exception as exc:  # pragma: no cover - harness guard
+        run.count(f"inplace_reuse_skipped_{type(exc).__name__}")
+        return
+    run.count("inplace_reuse_pairs")
+    if reused != fresh:
+        diff = first_diff(fresh[1], reused[1]) if reused[0] == fresh[0] else ("outcome", "outcome")
+        run.violation(f"trace_depends_on_earlier_run_with_same_data_object:{diff[0]}",
+                      f"second run on a caller-owned data object changed in place ({v1} -> {v2}) differs from a fresh Pipeline on a fresh object at {diff[1]}",
+                      {"kind": "inplace_reuse", "nodes": nodes, "detail": detail, "v1": v1, "v2": v2, "difference": diff})
+
+
 def first_diff(a, b):
     """-> (mechanism field path without values, human description)"""
     if len(a) != len(b):
@@ -535,6 +584,7 @@ def run(run):
                                        "ctx": {k: (list(v) if isinstance(v, tuple) else v) for k, v in case["ctx"].items()}})
             for detail in details:
                 check_case(run, case, detail, history, g, scratch)
+                inplace_reuse_case(run, g, detail, scratch)
                 run.case(canon_hash([case["nodes"], repr(case["ctx"]), case["data"], detail]), len(case["nodes"]) >= 2,
                          sample={"nodes": case["nodes"], "ctx": repr(case["ctx"]), "data": case["data"], "detail": detail, "history": len(history)}
                          if run.evaluations < 3 else None)
@@ -549,6 +599,7 @@ def run(run):
     run.floor("traced_runs", 30)
     run.floor("trace_pairs_compared", 30)
     run.floor("reused_pipeline_pairs", 20)
+    run.floor("inplace_reuse_pairs", 20)
     run.floor("hostile_hook_calls", 10)
     run.assumptions += ["volatile fields removed before comparison: run id, timestamps, SER timing, sequence numbers (vlib.tracecheck.normalise)",
                         "histories never load further modules/extensions (the environment pin registry.fingerprint legitimately tracks the registry)"]
@@ -563,6 +614,11 @@ def replay(run, witness):
         g = gen.Gen(run.seed, scratch)
         if witness.get("kind") == "near_twin":
             twin_history_in_fresh_processes(run, [{k: witness[k] for k in ("nodes", "twin", "ctx", "data", "detail")}], scratch)
+            run.case(witness["nodes"], True, sample=witness["nodes"])
+            run.case("replay-second-slot", True)
+            return
+        if witness.get("kind") == "inplace_reuse":
+            inplace_reuse_case(run, g, witness["detail"], scratch, fixed=(witness["nodes"], witness["v1"], witness["v2"]))
             run.case(witness["nodes"], True, sample=witness["nodes"])
             run.case("replay-second-slot", True)
             return
